@@ -10,7 +10,12 @@ a scalar leaf, an element container of one of nine kinds, or a pair container (d
 
 * `tuple list`                : `Sequence`s, the `(tuple, list)` branch of the output converter
 * `set fset kview iview`      : `collections.abc.Set`s (set, frozenset, dict.keys(), dict.items();
-                                the elements of an `iview` are the 2-tuples `(key, value)`)
+                                the elements of an `iview` are the 2-tuples `(key, value)`).
+                                `kview iview` are `collections.abc.KeysView / ItemsView` - the views of a
+                                builtin dict (`dict_keys`, `dict_items`, registered with these ABCs) as well as
+                                those of a `FrozenDict` / any `Mapping` (instances of the ABC classes proper),
+                                whether made by `dict.keys()` / `dict.items()` of the library or supplied by the
+                                host: the output converter has its own branch for them, before the `Set` branch
 * `iter ordering vview`       : every other iterable: generators / map / filter / zip / islice...
                                 (`iter`, given by its finite content), `queries.OrderingIterable`
                                 (content in sorted order), `dict.values()`
@@ -46,6 +51,11 @@ deriving Repr, Inhabited
 /-- `isinstance(obj, collections.abc.Set)` -/
 def SeqKind.isSetLike : SeqKind → Bool
   | .set | .fset | .kview | .iview => true
+  | _ => false
+
+/-- `isinstance(obj, (collections.abc.KeysView, collections.abc.ItemsView))`: the set-like dict views -/
+def SeqKind.isView : SeqKind → Bool
+  | .kview | .iview => true
   | _ => false
 
 /-- `isinstance(obj, (tuple, list))` (= `isinstance(obj, Sequence)` on these kinds) -/
@@ -133,7 +143,15 @@ def convOut (o : Opts) (lim : Limit) : Py → Except Err Py
         | .error e => .error e
       else .error .tooLarge
   | .seq k l =>
-      if k.isSetLike then
+      if k.isView then
+        -- keys() / items() of a dictionary: `list(rec(t) for t in limit_func(obj))` - a list of the keys /
+        -- of the `[key, value]` pairs in iteration order, whatever the options; sized, so checked by len
+        if lim.admits l.length then
+          match convElems o lim false none l with
+          | .ok r => .ok (.seq .list r)
+          | .error e => .error e
+        else .error .tooLarge
+      else if k.isSetLike then
         if lim.admits l.length then
           match convElems o lim (!o.s2l) none l with
           | .ok r => .ok (.seq (if o.s2l then .list else .set) r)
